@@ -148,11 +148,22 @@ def rewrite_body(s):
     _count('R10.neg', k)
     # R13: Option::map with a closure -> its definition as a match (Verus does not infer closure specs)
     s = rewrite_map_closure(s)
+    # R20: reference patterns in match arms (parser.rs: `Some(&c) if c == b'-' => ..`) are not supported by Verus
+    s = rewrite_ref_pattern(s)
     # R11: reserved identifiers
     s, k = re.subn(r'(?<![A-Za-z0-9_])int(?![A-Za-z0-9_])', 'int_', s)
     _count('R11.int', k)
     s, k = re.subn(r'(?<![A-Za-z0-9_])nat(?![A-Za-z0-9_])', 'nat_', s)
     _count('R11.nat', k)
+    # R40: compound division / remainder assignment statements on a simple place (`x`, `*x`):
+    # `X /= E;` -> `X = X / (E);`, `X %= E;` -> `X = X % (E);`.  For primitive integers this is the
+    # definition of the compound operator (X is a side-effect free place, evaluated once either way).
+    # Verus (0.2026.09.13) rejects `/=`, `%=` on signed machine integers ("div/mod on signed
+    # finite-width integers") although it supports the binary `/`, `%` (rust_div / rust_rem).
+    # Non-test code of /repo applies `/=`, `%=` to primitive integers only (Decimal's DivAssign /
+    # RemAssign are exercised by #[cfg(test)] modules, which are never extracted).
+    s, k = re.subn(r'([;{}]\s*)(\*?[a-z_][a-z0-9_]*)[ \t]*([/%])=(?!=)[ \t]*([^;{}]+);', r'\1\2 = \2 \3 (\4);', s)
+    _count('R40.divrem_assign', k)
     return s
 
 
@@ -186,6 +197,75 @@ def rewrite_map_closure(s):
         _count('R13.map_closure')
         repl = '%s(match %s { Some(%s) => Some(%s), None => None })' % (lead, recv, m.group(1), body)
         s = s[:i + 1] + repl + s[end:]
+
+
+def rewrite_ref_pattern(s):
+    """R20: match arm `Some(&x) [if GUARD] => BODY` -> `Some(x) [if GUARD'] => BODY'` where every use of `x`
+    in GUARD/BODY becomes `(*x)`.  Identical meaning: `&x` in a pattern binds x to the dereferenced (Copy)
+    value, `(*x)` reads the same value through the reference bound by the pattern without `&`.
+    Arms that re-bind `x` are refused (anchor lost)."""
+    rx = re.compile(r'Some\(&([a-z_][a-z0-9_]*)\)(?=\s*(=>|if\b))')
+    pos = 0
+    while True:
+        m = rx.search(s, pos)
+        if not m:
+            return s
+        x = m.group(1)
+        # extent of the arm: guard up to `=>`, then a block `{..}` or an expression up to `,` / `}` at depth 0
+        depth = 0
+        arrow = None
+        end = None
+        i = m.end()
+        toks = [(k, a + i, b + i) for (k, a, b) in rsx.tokens(s[i:])]
+        for idx, (k, a, b) in enumerate(toks):
+            if k != 'p':
+                continue
+            ch = s[a]
+            if arrow is None:
+                if ch in '([{':
+                    depth += 1
+                elif ch in ')]}':
+                    depth -= 1
+                elif ch == '=' and s[a:a + 2] == '=>' and depth == 0:
+                    arrow = a
+                    j = idx + 2          # '=' and '>' are separate punctuation tokens
+                    while j < len(toks) and toks[j][0] in ('ws', 'comment'):
+                        j += 1
+                    if j < len(toks) and s[toks[j][1]] == '{':
+                        end = rsx.match_close(s, toks[j][1])
+                        break
+            else:
+                if ch in '([{':
+                    depth += 1
+                elif ch in ')]}':
+                    if depth == 0:
+                        end = a
+                        break
+                    depth -= 1
+                elif ch == ',' and depth == 0:
+                    end = a
+                    break
+        if arrow is None or end is None:
+            raise AnchorLost('R20: cannot delimit match arm after %s' % m.group(0))
+        arm = s[m.end():end]
+        if re.search(r'(?<![A-Za-z0-9_])(let\s+(mut\s+)?|\||Some\(&?|ref\s+)%s(?![A-Za-z0-9_])' % re.escape(x), arm):
+            raise AnchorLost('R20: `%s` re-bound inside the arm' % x)
+        out = []
+        last = m.end()
+        for k, a, b in rsx.tokens(arm):
+            if k == 'id' and arm[a:b] == x:
+                # not a field/method name (`.x`)
+                pre = arm[:a].rstrip()
+                if pre.endswith('.') and not pre.endswith('..'):
+                    continue
+                out.append(s[last:m.end() + a])
+                out.append('(*%s)' % x)
+                last = m.end() + b
+        out.append(s[last:end])
+        _count('R20.ref_pattern')
+        repl = 'Some(%s)' % x + ''.join(out)
+        s = s[:m.start()] + repl + s[end:]
+        pos = m.start() + len(repl)
 
 
 def _flat(m):
